@@ -202,6 +202,7 @@ bool DyndepParser::ParseEdge(string* err) {
     uint64_t slash_bits;
     CanonicalizePath(&path, &slash_bits);
     Node* n = state_->GetNode(path, slash_bits);
+    n->set_generated_by_dep_loader(false);
     dyndeps->implicit_inputs_.push_back(n);
   }
 
